@@ -520,9 +520,20 @@ func hasCommentedTextBlock(c editCase) bool {
 		return false
 	}
 	for _, s := range st.syntax().Stmt {
-		if b, ok := s.(*modfile.LineBlock); ok && (b.Token[0] == "retract" || b.Token[0] == "module") &&
-			(len(b.Before) > 0 || len(b.Suffix) > 0) {
-			return true
+		if b, ok := s.(*modfile.LineBlock); ok && (b.Token[0] == "retract" || b.Token[0] == "module") {
+			if len(b.Before) > 0 || len(b.Suffix) > 0 {
+				return true
+			}
+			// (c) a line of the block has leading comments separated by a blank line: once
+			// Cleanup collapses the block to a top-level line, the part before the blank
+			// line is a detached comment block for a re-parse
+			for _, l := range b.Line {
+				for _, c := range l.Before {
+					if c.Token == "" {
+						return true
+					}
+				}
+			}
 		}
 	}
 	return false
